@@ -41,9 +41,16 @@ type SortTuple struct {
 
 // Flush does nothing
 func (r QuantityReporter) Flush() error {
+	// start from name order so that equal quantities are reported in a
+	// stable order instead of the map iteration order
+	names := make([]string, 0, len(r.accumulator))
+	for k := range r.accumulator {
+		names = append(names, k)
+	}
+	sort.Strings(names)
 	sortable := make([]SortTuple, 0, len(r.accumulator))
-	for k, v := range r.accumulator {
-		sortable = append(sortable, SortTuple{k, v})
+	for _, k := range names {
+		sortable = append(sortable, SortTuple{k, r.accumulator[k]})
 	}
 
 	if r.descending {
